@@ -1604,6 +1604,37 @@ def _read(it, a, info):
     raise Unsupported('Read::read on %r' % (r,))
 
 
+class ChainObj(Opaque):
+    """std::io::Chain: the first reader until it reports end-of-stream (for a non-empty buffer), then the second"""
+
+    def __init__(self, first, second):
+        Opaque.__init__(self, 'Chain')
+        self.first = Cell(first)
+        self.second = Cell(second)
+        self.done_first = False
+
+    def read(self, it, buf):
+        if not self.done_first:
+            r = reader_read(it, Ref(self.first, (), True), buf)
+            if r.variant == 'Err':
+                return r
+            n = r.fields[0]
+            if it.ctx.branch(z3.And(n == 0, buf.len != 0)):
+                self.done_first = True
+            else:
+                return r
+        return reader_read(it, Ref(self.second, (), True), buf)
+
+    def on_drop(self, it, me=None):
+        it.drop_value(self.first.v)
+        it.drop_value(self.second.v)
+
+
+@model('Read::chain')
+def _(it, a, info):
+    return ChainObj(a[0], a[1])
+
+
 @model('Read::by_ref', 'Write::by_ref')
 def _(it, a, info):
     return a[0]
